@@ -260,8 +260,12 @@ func (m *Message) Nacked() <-chan struct{} {
 // nack handling.
 func (m *Message) Clone() *Message {
 	return &Message{
-		Ctx:    m.Ctx,
-		Record: m.Record.Clone(),
+		Ctx:      m.Ctx,
+		Record:   m.Record.Clone(),
+		SourceID: m.SourceID,
+		// a filtered message stays filtered, otherwise a record filtered out
+		// before a fan-out would be written to every destination after it
+		filtered: m.filtered,
 	}
 }
 
